@@ -1,5 +1,5 @@
 import Rfsm.Proofs.HttpLemmas
-/-! Lemmas for C20 about the session table, the route's loop and rocket's map context. -/
+/-! Lemmas for C20 about the session table, the route's loop and `set_event`'s map. -/
 
 namespace Rfsm.Http
 
@@ -228,136 +228,11 @@ theorem lastValue_distinct (form : List (Bytes × Bytes)) (k : Bytes) (h : keysD
     · have hk' : (p.1 == k) = false := by simpa using hk
       simp [lastValue, hk', ih h.2]
 
-/-! ### rocket's map context on plain field names -/
-
-/-- a field name rocket reads as one key: not empty, not starting with `=`, no `.`, `[`, `:` -/
-def plainName (n : Bytes) : Bool :=
-  !n.isEmpty && n.head? != some 61 && n.all (fun c => c != 46 && c != 91 && c != 58)
-
-def plainFields (fields : List (Bytes × Bytes)) : Bool := fields.all (fun p => plainName p.1)
-
-theorem findDelim_plain (n : Bytes) (h : n.all (fun c => c != 46 && c != 91 && c != 58) = true) :
-    findDelim n = n.length := by
-  induction n with
-  | nil => rfl
-  | cons c cs ih =>
-    rw [List.all_cons, Bool.and_eq_true] at h
-    have hc := h.1
-    simp only [Bool.and_eq_true, bne_iff_ne, ne_eq] at hc
-    have h46 : (c == 46) = false := by simp [hc.1.1]
-    have h91 : (c == 91) = false := by simp [hc.1.2]
-    simp [findDelim, h46, h91, ih h.2]
-
-theorem firstView_plain (n : Bytes) (h : plainName n = true) : firstView n = (n, true) := by
-  unfold plainName at h
-  simp only [Bool.and_eq_true] at h
-  obtain ⟨⟨hne, hhead⟩, hall⟩ := h
-  cases n with
-  | nil => simp at hne
-  | cons c cs =>
-    have hfd := findDelim_plain (c :: cs) hall
-    rw [List.all_cons, Bool.and_eq_true] at hall
-    have hc := hall.1
-    simp only [Bool.and_eq_true, bne_iff_ne, ne_eq] at hc
-    have h61 : (c == 61) = false := by
-      simp only [List.head?_cons, bne_iff_ne, ne_eq, Option.some.injEq] at hhead
-      simp [hhead]
-    have h91 : (c == 91) = false := by simp [hc.1.2]
-    have h46 : (c == 46) = false := by simp [hc.1.1]
-    simp only [firstView, h61, h91, h46, Bool.false_eq_true, ↓reduceIte, hfd]
-    simp
-
-theorem viewKey_plain (n : Bytes) (h : plainName n = true) : viewKey n true = n := by
-  unfold plainName at h
-  simp only [Bool.and_eq_true] at h
-  obtain ⟨⟨_, _⟩, hall⟩ := h
-  cases n with
-  | nil => rfl
-  | cons c cs =>
-    rw [List.all_cons, Bool.and_eq_true] at hall
-    have hc := hall.1
-    simp only [Bool.and_eq_true, bne_iff_ne, ne_eq] at hc
-    have h91 : (c == 91) = false := by simp [hc.1.2]
-    have h46 : (c == 46) = false := by simp [hc.1.1]
-    simp [viewKey, h46, h91]
+/-! ### `set_event`'s map (`mapOf`) on pairwise distinct names -/
 
 theorem beq_false_symm {a b : Bytes} (h : (a == b) = false) : (b == a) = false := by
   simp only [beq_eq_false_iff_ne, ne_eq] at h ⊢
   exact fun e => h e.symm
-
-theorem noColon_plain (n : Bytes) (hall : n.all (fun c => c != 46 && c != 91 && c != 58) = true) :
-    n.any (fun c => c == 58) = false ∧ splitAtByte 58 n = (n, []) := by
-  induction n with
-  | nil => exact ⟨rfl, rfl⟩
-  | cons c cs ih =>
-    rw [List.all_cons, Bool.and_eq_true] at hall
-    have hc := hall.1
-    simp only [Bool.and_eq_true, bne_iff_ne, ne_eq] at hc
-    have h58 : (c == 58) = false := by simp [hc.2]
-    have := ih hall.2
-    constructor
-    · rw [List.any_cons, h58, this.1]; rfl
-    · simp only [splitAtByte, h58, Bool.false_eq_true, ↓reduceIte, this.2]
-
-theorem keyIndices_plain (n : Bytes) (h : plainName n = true) : keyIndices n = (n, none) := by
-  unfold plainName at h
-  simp only [Bool.and_eq_true] at h
-  obtain ⟨⟨_, _⟩, hall⟩ := h
-  have := noColon_plain n hall
-  simp only [keyIndices, this.1, this.2, Bool.false_eq_true, ↓reduceIte]
-
-def toEntry (p : Bytes × Bytes) : Entry := { idx := p.1, k := some p.1, v := some p.2 }
-
-theorem hasIdx_append (es : List Entry) (e : Entry) (i : Bytes) :
-    hasIdx (es ++ [e]) i = (hasIdx es i || e.idx == i) := by
-  simp [hasIdx]
-
-theorem updEntry_absent (es : List Entry) (i : Bytes) (f : Entry → Entry) (h : hasIdx es i = false) :
-    updEntry es i f = es := by
-  unfold updEntry
-  unfold hasIdx at h
-  conv => rhs; rw [← List.map_id es]
-  apply List.map_congr_left
-  intro e he
-  have := List.any_eq_false.mp h e he
-  simp [this]
-
-theorem updEntry_append (es : List Entry) (e : Entry) (i : Bytes) (f : Entry → Entry) :
-    updEntry (es ++ [e]) i f = updEntry es i f ++ [if e.idx == i then f e else e] := by
-  simp [updEntry]
-
-theorem mapPush_plain (m : MapCtx) (nv : Bytes × Bytes) (hp : plainName nv.1 = true)
-    (hnew : hasIdx m.entries nv.1 = false) :
-    mapPush m nv = { m with entries := m.entries ++ [toEntry nv] } := by
-  have hne : nv.1.isEmpty = false := by
-    unfold plainName at hp
-    simp only [Bool.and_eq_true, Bool.not_eq_eq_eq_not, Bool.not_true] at hp
-    exact hp.1.1
-  unfold mapPush
-  simp only [firstView_plain nv.1 hp, viewKey_plain nv.1 hp, hne, Bool.false_eq_true, ↓reduceIte,
-    keyIndices_plain nv.1 hp, hnew, Bool.not_false, ensure]
-  rw [updEntry_append, updEntry_absent _ _ _ hnew, updEntry_append, updEntry_absent _ _ _ hnew]
-  simp [pushOpt, toEntry]
-
-theorem foldl_mapPush_plain (fields : List (Bytes × Bytes)) (m : MapCtx)
-    (hp : plainFields fields = true) (hd : keysDistinct fields = true)
-    (hfresh : ∀ p ∈ fields, hasIdx m.entries p.1 = false) :
-    fields.foldl mapPush m = { m with entries := m.entries ++ fields.map toEntry } := by
-  induction fields generalizing m with
-  | nil => simp
-  | cons p l ih =>
-    unfold plainFields at hp
-    rw [List.all_cons, Bool.and_eq_true] at hp
-    simp only [keysDistinct, Bool.and_eq_true, Bool.not_eq_eq_eq_not, Bool.not_true] at hd
-    rw [List.foldl_cons, mapPush_plain m p hp.1 (hfresh p (by simp))]
-    rw [ih _ hp.2 hd.2]
-    · simp
-    · intro q hq
-      simp only
-      rw [hasIdx_append, hfresh q (by simp [hq])]
-      have := List.any_eq_false.mp hd.1 q hq
-      simp only [toEntry, Bool.false_or]
-      exact beq_false_symm (by simpa using this)
 
 theorem insertKV_fresh (acc : List (Bytes × Bytes)) (k v : Bytes)
     (h : acc.any (fun p => p.1 == k) = false) : insertKV acc k v = acc ++ [(k, v)] := by
@@ -365,14 +240,12 @@ theorem insertKV_fresh (acc : List (Bytes × Bytes)) (k v : Bytes)
 
 theorem foldl_insert_distinct (fields acc : List (Bytes × Bytes)) (hd : keysDistinct fields = true)
     (hfresh : ∀ p ∈ fields, acc.any (fun q => q.1 == p.1) = false) :
-    (fields.map toEntry).foldl finalizeStep acc = acc ++ fields := by
+    fields.foldl (fun acc p => insertKV acc p.1 p.2) acc = acc ++ fields := by
   induction fields generalizing acc with
   | nil => simp
   | cons p l ih =>
     simp only [keysDistinct, Bool.and_eq_true, Bool.not_eq_eq_eq_not, Bool.not_true] at hd
-    rw [List.map_cons, List.foldl_cons]
-    have hstep : finalizeStep acc (toEntry p) = insertKV acc p.1 p.2 := rfl
-    rw [hstep, insertKV_fresh acc p.1 p.2 (hfresh p (by simp))]
+    rw [List.foldl_cons, insertKV_fresh acc p.1 p.2 (hfresh p (by simp))]
     rw [ih _ hd.2]
     · simp
     · intro q hq
@@ -381,20 +254,10 @@ theorem foldl_insert_distinct (fields acc : List (Bytes × Bytes)) (hd : keysDis
       simp only [List.any_cons, List.any_nil, Bool.or_false, Bool.false_or]
       exact beq_false_symm (by simpa using this)
 
-/-- for plain, pairwise distinct field names rocket's `HashMap` form is the list of fields itself -/
-theorem rocketMap_plain (fields : List (Bytes × Bytes)) (hp : plainFields fields = true)
-    (hd : keysDistinct fields = true) : rocketMap fields = some fields := by
-  unfold rocketMap
-  rw [foldl_mapPush_plain fields {} hp hd (by intro p _; rfl)]
-  unfold mapFinalize
-  have hany : (fields.map toEntry).any (fun e => e.k.isNone || e.v.isNone) = false := by
-    apply List.any_eq_false.mpr
-    intro e he
-    simp only [List.mem_map] at he
-    obtain ⟨p, _, rfl⟩ := he
-    simp [toEntry]
-  simp only [List.nil_append, Bool.false_eq_true, ↓reduceIte, hany]
-  rw [foldl_insert_distinct fields [] hd (by intro p _; rfl)]
+/-- with pairwise distinct names the map `set_event` builds is the list of parameters itself -/
+theorem mapOf_distinct (pv : List (Bytes × Bytes)) (hd : keysDistinct pv = true) : mapOf pv = pv := by
+  unfold mapOf
+  rw [foldl_insert_distinct pv [] hd (by intro p _; rfl)]
   simp
 
 /-! ### lemmas used by `Props/C20.lean` -/
@@ -404,10 +267,7 @@ def eventOf (t : Table) (r : Bytes × Bytes) : Option (Nat × Event) :=
   match parseSid (pctDecode r.1) with
   | none => none
   | some sid =>
-    if (lookup t sid).isSome then
-      match rocketMap (formDecode r.2) with
-      | none => none
-      | some form => (routeEvent form).map (fun ev => (sid, ev))
+    if (lookup t sid).isSome then (routeEvent (formDecode r.2)).map (fun ev => (sid, ev))
     else none
 
 theorem receive_eventOf (t : Table) (r : Bytes × Bytes) :
@@ -421,15 +281,11 @@ theorem receive_eventOf (t : Table) (r : Bytes × Bytes) :
   | some sid =>
     simp only
     cases hl : lookup t sid with
-    | none =>
-      cases rocketMap (formDecode r.2) <;> simp
+    | none => simp
     | some s =>
-      cases rocketMap (formDecode r.2) with
-      | none => simp
-      | some form =>
-        simp only [Option.isSome_some, ↓reduceIte]
-        cases hb : buildEvent form with
-        | mk n ev => cases n <;> simp
+      simp only [Option.isSome_some, ↓reduceIte]
+      cases hb : buildEvent (formDecode r.2) with
+      | mk n ev => cases n <;> simp
 
 theorem eventOf_congr (t t' : Table) (h : sidsOf t = sidsOf t') (r : Bytes × Bytes) :
     eventOf t r = eventOf t' r := by
@@ -491,6 +347,26 @@ theorem routeBody_spec (t : Table) (sid : Nat) (form : List (Bytes × Bytes))
   | none => rfl
   | some s =>
     cases fieldValue form scxmlEventName with
+    | none => rfl
+    | some n => rfl
+
+/-- the route body for EVERY form (duplicates included): the last `_scxmleventname` names the event,
+    the last `_content` is its content, every other field is a parameter, in body order -/
+theorem routeBody_all (t : Table) (sid : Nat) (form : List (Bytes × Bytes)) :
+    routeBody t sid form =
+      match lookup t sid, lastValue form scxmlEventName with
+      | some _, some n =>
+        (200, enqueue t sid
+          { name := n,
+            params := if (otherFields form).isEmpty then none else some (otherFields form),
+            content := lastValue form scxmlContent })
+      | _, _ => (400, t) := by
+  unfold routeBody
+  rw [buildEvent_eq]
+  cases lookup t sid with
+  | none => rfl
+  | some s =>
+    cases lastValue form scxmlEventName with
     | none => rfl
     | some n => rfl
 
@@ -623,7 +499,7 @@ end Rfsm.Http
 
 namespace Rfsm.Http
 
-/-! ### what rocket hands to the route is a map: keys pairwise distinct -/
+/-! ### pairwise distinct names -/
 
 theorem keysDistinct_iff (l : List (Bytes × Bytes)) :
     keysDistinct l = true ↔ (l.map (·.1)).Nodup := by
@@ -648,61 +524,9 @@ theorem keysDistinct_iff (l : List (Bytes × Bytes)) :
       simp only [List.mem_map]
       exact ⟨q, hq, by simpa using hqe⟩
 
-theorem insertKV_keys (acc : List (Bytes × Bytes)) (k v : Bytes) :
-    (insertKV acc k v).map (·.1) =
-      if acc.any (fun p => p.1 == k) then acc.map (·.1) else acc.map (·.1) ++ [k] := by
-  unfold insertKV
-  split
-  · rw [List.map_map]
-    apply List.map_congr_left
-    intro p _
-    simp only [Function.comp]
-    split
-    · rename_i h; exact (by simpa using h : p.1 = k).symm
-    · rfl
-  · simp
-
-theorem insertKV_distinct (acc : List (Bytes × Bytes)) (k v : Bytes) (h : keysDistinct acc = true) :
-    keysDistinct (insertKV acc k v) = true := by
+theorem keysDistinct_otherFields (l : List (Bytes × Bytes)) (h : keysDistinct l = true) :
+    keysDistinct (otherFields l) = true := by
   rw [keysDistinct_iff] at h ⊢
-  rw [insertKV_keys]
-  split
-  · exact h
-  · rename_i hk
-    rw [List.nodup_append]
-    refine ⟨h, by simp, ?_⟩
-    intro a ha b hb
-    simp only [List.mem_singleton] at hb
-    subst hb
-    intro hab
-    subst hab
-    apply hk
-    simp only [List.mem_map] at ha
-    obtain ⟨q, hq, hqe⟩ := ha
-    exact List.any_eq_true.mpr ⟨q, hq, by simp [hqe]⟩
-
-theorem foldl_finalize_distinct (es : List Entry) (acc : List (Bytes × Bytes))
-    (h : keysDistinct acc = true) : keysDistinct (es.foldl finalizeStep acc) = true := by
-  induction es generalizing acc with
-  | nil => exact h
-  | cons e es ih =>
-    rw [List.foldl_cons]
-    apply ih
-    unfold finalizeStep
-    split
-    · exact insertKV_distinct acc _ _ h
-    · exact h
-
-/-- whatever the request, the form the route iterates over has pairwise distinct keys -/
-theorem rocketMap_distinct (fields form : List (Bytes × Bytes)) (h : rocketMap fields = some form) :
-    keysDistinct form = true := by
-  unfold rocketMap mapFinalize at h
-  split at h
-  · exact absurd h (by simp)
-  · split at h
-    · exact absurd h (by simp)
-    · simp only [Option.some.injEq] at h
-      rw [← h]
-      exact foldl_finalize_distinct _ [] rfl
+  exact h.sublist (List.Sublist.map _ List.filter_sublist)
 
 end Rfsm.Http
